@@ -242,6 +242,17 @@ def run(F, rep):
                        'it is declared outside the loop over the children being matched - otherwise every child merely needs SOME partner and multisets with different multiplicities compare equal')
     n_m = 0
     scope = [do_equals(F, c) for c in CLASSES] + [g for g in F.funcs.values() if g.name in ('equalEntities', 'areEquivalentEntities') and g.file.endswith('/utilities.cpp')]
+    # helpers split off from a doEquals (same file, not themselves an equals/doEquals) are part of the comparison
+    seen = {g.key for g in scope}
+    work = [do_equals(F, c) for c in CLASSES]
+    while work:
+        g = work.pop()
+        for ck in sorted(F.callees.get(g.key, ())):
+            h = F.funcs.get(ck)
+            if h is not None and ck not in seen and h.file == g.file and h.name not in ('equals', 'doEquals', 'pFunc'):
+                seen.add(ck)
+                scope.append(h)
+                work.append(h)
     for f in scope:
         for e in f.walk():
             if e.get('k') == 'Call' and e.get('mc') and e.get('fn') == 'erase' and e['c'][0].get('k') == 'Ref' and e['c'][0].get('dk') == 'local':
@@ -413,6 +424,9 @@ def run(F, rep):
                        'two infinite operands must reach the bit comparison, otherwise units with an infinite exponent or multiplier are not equal to themselves')
     ud = [g for g in F.funcs.values() if g.name == 'ulpsDistance' and g.file.endswith('/utilities.cpp')]
     if len(ud) != 1:
+        # the distance computation folded into its only caller: the same guards, giving up by `return false`
+        ud = [g for g in F.funcs.values() if g.name == 'areNearlyEqual' and g.file.endswith('/utilities.cpp') and any(c.get('k') == 'Call' and c.get('fn') in ('isnan', 'isinf') for c in g.walk())]
+    if len(ud) != 1:
         raise AnalysisBroken('ulpsDistance vanished')
     ud = ud[0]
     pa, pb = ud.params[0]['n'], ud.params[1]['n']
@@ -444,7 +458,8 @@ def run(F, rep):
         raise AnalysisBroken('ulpsDistance: cannot interpret guard `%s`' % render(e)[:60])
     guards = []
     for i_ in ud.walk():
-        if i_.get('k') == 'If' and any(r.get('k') == 'Return' and r.get('c') and render(r['c'][0]) == 'max' for r in walk(role(i_, 'then') or {})):
+        gives_up = any(r.get('k') == 'Return' and r.get('c') and (render(r['c'][0]) == 'max' or (ud.name != 'ulpsDistance' and render(r['c'][0]) == 'false')) for r in walk(role(i_, 'then') or {}))
+        if i_.get('k') == 'If' and gives_up and (ud.name == 'ulpsDistance' or any(c.get('k') == 'Call' and c.get('fn') in ('isnan', 'isinf', 'isfinite') for c in walk(role(i_, 'cond')))):
             guards.append(role(i_, 'cond'))
     if not guards:
         raise AnalysisBroken('ulpsDistance: early `return max` guards vanished')
